@@ -78,3 +78,20 @@ def result_codes():
         raise vlib.MachineryError("could not read the specification's result codes (%d)" % len(res))
     _cache["rc"] = res
     return res
+
+
+def _pairs(defname):
+    import os
+    txt = open(os.path.join(vlib.COQ, "spec", "Spec.v")).read()
+    i = txt.index("Definition " + defname)
+    body = txt[i:txt.index("]%string.", i)]
+    return [(k, int(v, 16) if v.lower().startswith("0x") else int(v)) for k, v in re.findall(r'\(\s*"([^"]*)"\s*,\s*(0[xX][0-9a-fA-F]+|\d+)\s*\)', body)]
+
+
+def upload_file_ids():
+    """[(path, file id)] of the specification (coq/spec/Spec.v, `upload_file_ids`)"""
+    if "up" not in _cache:
+        _cache["up"] = _pairs("upload_file_ids")
+        if len(_cache["up"]) < 15:
+            raise vlib.MachineryError("could not read the specification's upload table")
+    return _cache["up"]
